@@ -96,7 +96,7 @@ End TextLayer.
 Section RoundTrip.
   Variable F : Type.
   Variable fv : F -> option xq.
-  Variable cparse : string -> option (cop * xq).
+  Variable cparse : string -> option (js_cop * xq).
   Notation jv := (jvalue F).
   Notation psol := (psol F).
   Notation pval := (pval F).
@@ -190,7 +190,7 @@ Section RoundTrip.
              end in
     let cons := fla_assign F (p_nconstrs p) (ps_cons F s) in
     cv <- js_viol (p_cons p) cons ;;
-    Ok (p, mkSol F p (fla_assign F (p_nvars p) (ps_vars F s)) (fla_assign F (p_nobjs p) (ps_objs F s)) cons cv (fzero cv)).
+    Ok (p, mkSol F p (fla_assign F (p_nvars p) (ps_vars F s)) (fla_assign F (p_nobjs p) (ps_objs F s)) cons cv (js_fzero cv)).
 
   Lemma dec_enc_sol : forall o ph s st, fields_objfree s = true ->
     dec o ph (enc_sol F s) st = (r <- load_sol st s ;; Ok (Some (fst r), PSol F (snd r))).
@@ -229,7 +229,7 @@ Section RoundTrip.
   (* ---- attaching a saved solution to a problem of the right shape ---- *)
   Definition attach (p : problem) (s : psol) : res psol :=
     cv <- js_viol (p_cons p) (ps_cons F s) ;;
-    Ok (mkSol F p (ps_vars F s) (ps_objs F s) (ps_cons F s) cv (fzero cv)).
+    Ok (mkSol F p (ps_vars F s) (ps_objs F s) (ps_cons F s) cv (js_fzero cv)).
 
   Definition shape_of (nv no nc : nat) (s : psol) : bool :=
     Nat.eqb (List.length (ps_vars F s)) nv && Nat.eqb (List.length (ps_objs F s)) no && Nat.eqb (List.length (ps_cons F s)) nc.
@@ -292,7 +292,7 @@ Section RoundTrip.
     ps_vars F o = ps_vars F s /\ ps_objs F o = ps_objs F s /\ ps_cons F o = ps_cons F s /\
     ps_prob F o = p /\
     js_viol (p_cons p) (ps_cons F s) = Ok (ps_cv F o) /\
-    ps_feas F o = fzero (ps_cv F o).
+    ps_feas F o = js_fzero (ps_cv F o).
 
   Lemma attach_same : forall p s o, attach p s = Ok o -> same_as p s o.
   Proof.
@@ -612,7 +612,7 @@ End RoundTrip.
 (* ------------------------------------------------------------------ *)
 (* file-level round trips: load_json (save_json x)                    *)
 (* ------------------------------------------------------------------ *)
-Definition algo_roundtrip_stmt (F T : Type) (fv : F -> option xq) (cparse : string -> option (cop * xq))
+Definition algo_roundtrip_stmt (F T : Type) (fv : F -> option xq) (cparse : string -> option (js_cop * xq))
   (pr : F -> T) (pa : T -> F) (old : bool) (a : algo F) : Prop :=
   exists outs,
     load_json_gen F fv cparse T pa old None (save_json F T pr (SvAlgorithm F a))
@@ -622,7 +622,7 @@ Definition algo_roundtrip_stmt (F T : Type) (fv : F -> option xq) (cparse : stri
 Section Files.
   Variables F T : Type.
   Variable fv : F -> option xq.
-  Variable cparse : string -> option (cop * xq).
+  Variable cparse : string -> option (js_cop * xq).
   Variable pr : F -> T.
   Variable pa : T -> F.
   Hypothesis RT : forall f, fv f <> None -> pa (pr f) = f.
@@ -800,14 +800,14 @@ Section Feasible.
   Local Open Scope Q_scope.
 
 
-  Definition nonneg (v : fval) : Prop :=
+  Definition nonneg (v : js_fval) : Prop :=
     match v with None => True | Some a => xleb xzero a = true end.
 
   Lemma xeqb_fin_zero : forall q, xeqb (Fin q) xzero = Qle_bool 0 q && Qle_bool q 0.
   Proof. intros q. unfold xeqb, xltb, xzero, Qltb. rewrite !negb_involutive. reflexivity. Qed.
   Lemma xleb_zero_fin : forall q, xleb xzero (Fin q) = Qle_bool 0 q.
   Proof. intros q. unfold xleb, xltb, xzero, Qltb. rewrite negb_involutive. reflexivity. Qed.
-  Lemma fzero_fin : forall q, fzero (Some (Fin q)) = Qle_bool 0 q && Qle_bool q 0.
+  Lemma fzero_fin : forall q, js_fzero (Some (Fin q)) = Qle_bool 0 q && Qle_bool q 0.
   Proof. intros q. apply xeqb_fin_zero. Qed.
 
   Lemma nonneg_fin : forall q, nonneg (Some (Fin q)) <-> 0 <= q.
@@ -823,7 +823,7 @@ Section Feasible.
   Qed.
 
   Lemma fadd_zero : forall a b, nonneg a -> nonneg b ->
-    fzero (fadd a b) = fzero a && fzero b /\ nonneg (fadd a b).
+    js_fzero (js_fadd a b) = js_fzero a && js_fzero b /\ nonneg (js_fadd a b).
   Proof.
     intros [[|x|]|] [[|y|]|] Ha Hb; simpl in *; try discriminate; try (split; [reflexivity | exact I || reflexivity]);
       try (split; [symmetry; apply andb_false_r | exact I || reflexivity]).
@@ -834,19 +834,19 @@ Section Feasible.
   Qed.
 
   Lemma js_sum_zero_acc : forall ts acc, Forall nonneg ts -> nonneg acc ->
-    fzero (fold_left fadd ts acc) = fzero acc && forallb fzero ts.
+    js_fzero (fold_left js_fadd ts acc) = js_fzero acc && forallb js_fzero ts.
   Proof.
     induction ts as [|t r IH]; intros acc Hts Hacc; simpl; [rewrite andb_true_r; reflexivity|].
     inversion Hts; subst. destruct (fadd_zero acc t Hacc H1) as [Z N].
     rewrite IH by assumption. rewrite Z. rewrite andb_assoc. reflexivity.
   Qed.
 
-  Lemma js_sum_zero : forall ts, Forall nonneg ts -> fzero (js_sum ts) = forallb fzero ts.
+  Lemma js_sum_zero : forall ts, Forall nonneg ts -> js_fzero (js_sum ts) = forallb js_fzero ts.
   Proof.
     intros ts H. unfold js_sum. rewrite js_sum_zero_acc; [reflexivity | exact H | reflexivity].
   Qed.
 
-  Lemma fabs_nonneg : forall v, nonneg (fabs v).
+  Lemma fabs_nonneg : forall v, nonneg (js_fabs v).
   Proof.
     intros [[|q|]|]; simpl; try reflexivity; try exact I.
     apply nonneg_fin. apply Qabs_nonneg.
@@ -862,7 +862,7 @@ Section Feasible.
     - rewrite H. vm_compute. discriminate.
   Qed.
 
-  Lemma fzero_abs_fin : forall q, fzero (Some (Fin (Qabs q))) = Qeq_bool q 0.
+  Lemma fzero_abs_fin : forall q, js_fzero (Some (Fin (Qabs q))) = Qeq_bool q 0.
   Proof.
     intros q. rewrite fzero_fin. apply beq_iff. rewrite andb_true_iff, !Qle_bool_iff, Qeq_bool_iff.
     pose proof (Qabs_nonneg q). pose proof (Qabs_zero_iff q). tauto.
@@ -875,34 +875,34 @@ Section Feasible.
   Qed.
 
   (* one term of the sum is zero exactly when the declared relation holds (finite threshold) *)
-  Lemma js_term_zero_iff : forall op q x, fzero (fabs (js_cfun op (Fin q) x)) = js_holds op (Fin q) x.
+  Lemma js_term_zero_iff : forall op q x, js_fzero (js_fabs (js_cfun op (Fin q) x)) = js_holds op (Fin q) x.
   Proof.
     destruct delta_pos as (d & Ed & Hd).
     intros op q [[|a|]|]; destruct op; try reflexivity;
-      unfold js_cfun, js_holds, fleb, fgeb, fltb, fgtb, feqb, fsub, xneg, xadd.
+      unfold js_cfun, js_holds, js_fleb, js_fgeb, js_fltb, js_fgtb, js_feqb, js_fsub, xneg, xadd.
     - (* == *)
-      unfold fabs, xabs. rewrite fzero_abs_fin, Qeq_bool_abs. unfold xeqb, xltb, Qltb. rewrite !negb_involutive.
+      unfold js_fabs, js_xabs. rewrite fzero_abs_fin, Qeq_bool_abs. unfold xeqb, xltb, Qltb. rewrite !negb_involutive.
       apply beq_iff. rewrite andb_true_iff, !Qle_bool_iff, Qeq_bool_iff. split; intros; [split|]; lra.
     - (* <= *)
       unfold xleb, xltb, Qltb. rewrite negb_involutive.
       destruct (Qle_bool a q) eqn:E; [reflexivity|].
-      unfold fabs, xabs. rewrite fzero_abs_fin, Qeq_bool_abs. apply not_true_is_false. intros C.
+      unfold js_fabs, js_xabs. rewrite fzero_abs_fin, Qeq_bool_abs. apply not_true_is_false. intros C.
       apply Qeq_bool_iff in C. assert (a <= q) by lra. apply Qle_bool_iff in H. congruence.
     - (* >= *)
       unfold xleb, xltb, Qltb. rewrite negb_involutive.
       destruct (Qle_bool q a) eqn:E; [reflexivity|].
-      unfold fabs, xabs. rewrite fzero_abs_fin, Qeq_bool_abs. apply not_true_is_false. intros C.
+      unfold js_fabs, js_xabs. rewrite fzero_abs_fin, Qeq_bool_abs. apply not_true_is_false. intros C.
       apply Qeq_bool_iff in C. assert (q <= a) by lra. apply Qle_bool_iff in H. congruence.
     - (* != *)
       destruct (negb (xeqb (Fin a) (Fin q))); reflexivity.
     - (* < *)
       unfold xltb, Qltb. destruct (Qle_bool q a) eqn:E; [|reflexivity]. simpl negb. cbv iota.
-      rewrite Ed. unfold fabs, fadd, xabs, xadd. rewrite fzero_abs_fin.
+      rewrite Ed. unfold js_fabs, js_fadd, js_xabs, xadd. rewrite fzero_abs_fin.
       apply not_true_is_false. intros C. apply Qeq_bool_iff in C.
       pose proof (Qabs_nonneg (a + - q)). lra.
     - (* > *)
       unfold xltb, Qltb. destruct (Qle_bool a q) eqn:E; [|reflexivity]. simpl negb. cbv iota.
-      rewrite Ed. unfold fabs, fadd, xabs, xadd. rewrite fzero_abs_fin.
+      rewrite Ed. unfold js_fabs, js_fadd, js_xabs, xadd. rewrite fzero_abs_fin.
       apply not_true_is_false. intros C. apply Qeq_bool_iff in C.
       pose proof (Qabs_nonneg (a + - q)). lra.
   Qed.
@@ -911,7 +911,7 @@ End Feasible.
 Section FeasibleViol.
   Variable F : Type.
   Variable fv : F -> option xq.
-  Variable cparse : string -> option (cop * xq).
+  Variable cparse : string -> option (js_cop * xq).
 
   (* the relation of one (declaration, value) pair; false when it cannot be evaluated *)
   Definition pair_holds (c : string) (x : jvalue F) : bool :=
@@ -925,11 +925,11 @@ Section FeasibleViol.
   (* solution.feasible (violation == 0.0) holds exactly when every declared relation holds *)
   Lemma js_feasible_iff : forall cs xs v, finite_thresholds cs ->
     js_viol F fv cparse cs xs = Ok v ->
-    fzero v = forallb (fun p => pair_holds (fst p) (snd p)) (combine cs xs).
+    js_fzero v = forallb (fun p => pair_holds (fst p) (snd p)) (combine cs xs).
   Proof.
     intros cs xs v Hfin H. unfold js_viol in H.
     destruct (js_terms F fv cparse cs xs) as [ts|e] eqn:E; [|discriminate]. simpl in H. inversion H; subst v. clear H.
-    assert (A : Forall nonneg ts /\ forallb fzero ts = forallb (fun p => pair_holds (fst p) (snd p)) (combine cs xs)).
+    assert (A : Forall nonneg ts /\ forallb js_fzero ts = forallb (fun p => pair_holds (fst p) (snd p)) (combine cs xs)).
     { revert xs ts E. induction cs as [|c cs IH]; intros xs ts E.
       - simpl in E. inversion E. split; [constructor|reflexivity].
       - destruct xs as [|x xs]; [simpl in E; inversion E; split; [constructor|reflexivity]|].
@@ -955,8 +955,8 @@ Definition xid (z : Z) : Z := z.
 Lemma inst_RT : forall f : Z, f64_val f <> None -> xid (xid f) = f.
 Proof. reflexivity. Qed.
 
-Definition ex_tab : list (string * (cop * xq)) :=
-  [ ("==0"%string, (CEq, xzero)); ("<=0.5"%string, (CLeq, F 1 (-1))) ].
+Definition ex_tab : list (string * (js_cop * xq)) :=
+  [ ("==0"%string, (JsEq, xzero)); ("<=0.5"%string, (JsLeq, F 1 (-1))) ].
 Definition ex_cparse := ctab_lookup ex_tab.
 
 Lemma inst_H0 : ex_cparse "==0" <> None.
@@ -1047,3 +1047,13 @@ Qed.
 
 Example ex_objs_wf : forallb (wf_objs Z f64_val 2) ex_sols = true.
 Proof. vm_compute. reflexivity. Qed.
+
+(* non-vacuity of js_feasible_iff: finite thresholds, a feasible and an infeasible value vector *)
+Example ex_feasible_iff :
+  finite_thresholds ex_cparse ["==0"%string; "<=0.5"%string] /\
+  (exists v, js_viol Z f64_val ex_cparse ["==0"%string; "<=0.5"%string] [JNum b_negzero; JNum b_quarter] = Ok v /\ js_fzero v = true) /\
+  (exists v, js_viol Z f64_val ex_cparse ["==0"%string; "<=0.5"%string] [JNum b_negzero; JNum b_3quarter] = Ok v /\ js_fzero v = false).
+Proof.
+  split; [|split; eexists; split; vm_compute; reflexivity].
+  intros c op y [H|[H|[]]] E; subst c; vm_compute in E; inversion E; subst; eexists; reflexivity.
+Qed.
